@@ -20,6 +20,7 @@ use k256::{
         ops::Reduce,
         rand_core::CryptoRngCore,
         subtle::{Choice, ConditionallySelectable, ConstantTimeEq},
+        PrimeField,
     },
     Scalar, U256,
 };
@@ -221,7 +222,16 @@ impl RVOLEReceiver {
         let mut mu_prime_hash = [0u8; 64];
         t.challenge_bytes(b"mu-hash", &mut mu_prime_hash);
 
-        if rvole_output.mu_hash.ct_ne(&mu_prime_hash).into() {
+        // The check value must be canonically encoded (below the group
+        // order), otherwise it has a second accepted encoding.
+        let eta_is_canonical =
+            rvole_output.eta.iter().fold(Choice::from(1u8), |ok, eta| {
+                ok & Scalar::from_repr((*eta).into()).is_some()
+            });
+
+        if (rvole_output.mu_hash.ct_ne(&mu_prime_hash) | !eta_is_canonical)
+            .into()
+        {
             return Err("Consistency check failed");
         }
 
